@@ -41,6 +41,27 @@ KNOWN = os.path.join(VERIF, "known_findings.json")
 TIER_TIMEOUT = {"quick": 600, "thorough": 2400}      # per harness, seconds
 MEM_LIMIT_KB = int(os.environ.get("VERIF_CBMC_MEM_GB", "12")) * 1024 * 1024   # per cbmc process (RSS, watchdog)
 
+THREAD_MODEL = r'''
+#[cfg(kani)]
+#[allow(unused)]
+pub(crate) mod verif_thread_model {
+    pub struct JoinHandle<T>(std::marker::PhantomData<T>);
+    impl<T> JoinHandle<T> {
+        pub fn join(self) -> Result<T, Box<dyn std::any::Any + Send + 'static>> {
+            panic!("threads are outside the model")
+        }
+    }
+    pub fn spawn<F, T>(_f: F) -> JoinHandle<T>
+    where
+        F: FnOnce() -> T + Send + 'static,
+        T: Send + 'static,
+    {
+        panic!("threads are outside the model")
+    }
+    pub fn sleep(_d: std::time::Duration) {}
+}
+'''
+
 REUSABLE_MODEL = r'''
 // ---- inserted by /verif/check.py (cfg(kani) only): model of `reusable!` ----
 // Kani 0.68 crashes (intrinsics.rs:243) on std's lazily initialised
@@ -175,7 +196,11 @@ def make_shadow(tmp, only_files=None):
     os.makedirs(sh)
     shutil.copytree(os.path.join(REPO, "src"), os.path.join(sh, "src"))
     for f in ("Cargo.toml", "Cargo.lock", "build.rs", "README.md"):
-        shutil.copy(os.path.join(REPO, f), os.path.join(sh, f))
+        src = os.path.join(REPO, f)
+        if f == "Cargo.lock" and not os.path.exists(src):
+            # Cargo.lock is git-ignored in /repo: a scratch worktree does not have it
+            src = os.path.join(HARNESS_DIR, "Cargo.lock.fallback")
+        shutil.copy(src, os.path.join(sh, f))
     with open(os.path.join(sh, "Cargo.toml"), "a") as fh:
         fh.write("\n[workspace]\n\n[lints.rust]\nunexpected_cfgs = { level = \"allow\" }\n")
     # harness copies live inside the shadow so that replays can be appended
@@ -184,7 +209,8 @@ def make_shadow(tmp, only_files=None):
     for rel in (closure_of(only_files) if only_files else harness_files()):
         src = os.path.join(sh, "src", rel)
         if not os.path.exists(src):
-            raise SystemExit("UNDECIDED: %s no longer exists in /repo/src" % rel)
+            print("UNDECIDED: %s no longer exists in /repo/src" % rel)
+            sys.exit(2)
         with open(src, "a") as fh:
             nat = os.path.join(hdst, "native", rel)
             if os.path.exists(nat):
@@ -196,7 +222,8 @@ def make_shadow(tmp, only_files=None):
     s = open(lib).read()
     anchor = "pub(crate) mod arrayutils;"
     if anchor not in s:
-        raise SystemExit("UNDECIDED: lib.rs anchor for reusable! model not found")
+        print("UNDECIDED: lib.rs anchor for reusable! model not found")
+        sys.exit(2)
     refmods = ""
     refdir = os.path.join(hdst, "ref")
     if os.path.isdir(refdir):
@@ -207,6 +234,16 @@ def make_shadow(tmp, only_files=None):
         refmods += "}\n"
     s = s.replace(anchor, REUSABLE_MODEL + refmods + anchor, 1)
     open(lib, "w").write(s)
+    # par.rs: Kani 0.68 has no thread model and crashes on std::thread / crossbeam code.  Under
+    # cfg(kani) `thread` is a model whose `spawn` is an assertion failure ("threads are outside
+    # the model"): harnesses on par.rs may only claim the sequential code before the first spawn.
+    par = os.path.join(sh, "src", "par.rs")
+    if os.path.exists(par):
+        ps = open(par).read()
+        if "use std::thread;" in ps:
+            ps = ps.replace("use std::thread;", "#[cfg(not(kani))]\nuse std::thread;\n#[cfg(kani)]\nuse self::verif_thread_model as thread;", 1)
+            ps += THREAD_MODEL
+            open(par, "w").write(ps)
     return sh
 
 
